@@ -28,12 +28,13 @@ ok, out = ck.coq_make(["Gen/C09_Matcher.vo", "Model/C09_Check.vo"])
 if not ok:
     ck.violation("coq-model-broken", "Coq model of C09 does not compile", {"log": out[-3000:]}, no_input=True)
     stop("model did not compile")
-ok, out = ck.coq_make(["Proofs/C09.vo", "Examples/C09.vo"])
+ok, out = ck.coq_make(["Proofs/C09.vo", "Proofs/C09_Spelling.vo", "Examples/C09.vo"])
 if not ok:
-    broken.append(("coq-make Proofs/C09 Examples/C09", out[-3000:]))
+    broken.append(("coq-make Proofs/C09 Proofs/C09_Spelling Examples/C09", out[-3000:]))
 ok, out = ck.coq_props()
 if not ok:
     broken.append(("Props/C09.v", out[-3000:]))
+ck.log("theorems checked", "BROKEN: " + broken[0][0] if broken else "ok")
 
 # 2. implementation on generated (pattern, tree) pairs
 exe, out = ck.go_build("./cmd/hc09")
@@ -49,6 +50,7 @@ if rc != 0:
     stop("harness run failed")
 data = json.load(open(res))
 cases = data["Cases"]
+ck.log("harness done:", len(cases), "cases")
 
 OUT = {"ok": "OOk", "fail": "OFail", "panic-rebound": "OPanicRebound", "panic-other": "OPanicOther"}
 
@@ -81,7 +83,13 @@ Print M.
 Print V.
 Print I.
 """ % coq_list(["\n " + case_v(c) for c in chunk])
+files["search"] = """Require Import Verif.Model.C09_Types Verif.Gen.C09_Matcher Verif.Model.C09 Verif.Model.C09_Check.
+Definition X := Eval vm_compute in find_cex gen_cfg.
+Print X.
+"""
 results = ck.coq_cases_parallel(files)
+X = ck.printed_value(results["search"][1], "X")
+ck.log("cases evaluated")
 
 
 def parse(val):
@@ -138,7 +146,7 @@ if not viol and mism:
                  {"first": describe(cases[i]), "count": len(mism), "kinds": sorted({d for _, ds in mism for d in ds})}, no_input=True)
 if broken and not ck.violations:
     ck.violation("obligation:" + broken[0][0], "proof obligation or tie no longer checks: %s" % broken[0][0],
-                 {"broken": broken, "idx_not_injective_cases": len(notinj)}, no_input=True)
+                 {"broken": broken, "idx_not_injective_cases": len(notinj), "model_level_counterexamples(find_cex gen_cfg)": X}, no_input=True)
 
 from collections import Counter
 nontriv = sum(1 for c in cases if c["Outcome"] == "ok" and c["StateV"] != "[]" and (c["HasOr"] or c["HasNot"]))
@@ -152,6 +160,7 @@ ck.finish({
     "kinds": dict(Counter(c["Kind"] for c in cases)),
     "other_spelling_cases": sum(1 for c in cases if c["Flipped"]),
     "succeeded_with_bindings": sum(1 for c in cases if c["Outcome"] == "ok" and c["StateV"] != "[]"),
+    "model_level_counterexample_search": X,
     "model_mismatches": len(mism), "property_violations": len(viol), "idx_not_injective_cases": len(notinj),
     "skipped_by_generator": data["Skipped"],
 })
